@@ -10,9 +10,11 @@ import (
 	"sync/atomic"
 	"time"
 
+	"github.com/tikv/pd/pkg/encryption"
 	"github.com/tikv/pd/pkg/tsoutil"
 	"github.com/tikv/pd/pkg/typeutil"
 	"github.com/tikv/pd/server/config"
+	"github.com/tikv/pd/server/encryptionkm"
 	"github.com/tikv/pd/server/id"
 	"github.com/tikv/pd/server/member"
 	"github.com/tikv/pd/server/tso"
@@ -31,6 +33,8 @@ func init() {
 
 const ttl = 2 // seconds: the smallest lease this etcd grants
 
+var keysMu sync.Mutex
+
 type contender struct {
 	name   string
 	id     uint64
@@ -39,6 +43,7 @@ type contender struct {
 	am     *tso.AllocatorManager
 	alloc  tso.Allocator
 	ida    id.Allocator
+	km     *encryptionkm.KeyManager
 	cancel context.CancelFunc // keep-alive
 	delay  int64              // ns by which the next lease keep-alive reply is delayed (atomic); later keep-alives are lost
 	slowed int64              // number of keep-alive streams opened since the delay was set
@@ -105,6 +110,13 @@ func newContender(e *etcdgate.Etcd, root, name string, idn uint64) (*contender, 
 		return nil, err
 	}
 	c.ida = id.NewAllocator(cl, root, c.mem.MemberValue())
+	ecfg := &encryption.Config{DataEncryptionMethod: "aes128-ctr", MasterKey: encryption.MasterKeyConfig{Type: "plaintext"}}
+	if err := ecfg.Adjust(); err != nil {
+		return nil, err
+	}
+	if c.km, err = encryptionkm.NewKeyManager(cl, ecfg); err != nil {
+		return nil, err
+	}
 	return c, nil
 }
 
@@ -192,6 +204,7 @@ func one(e *etcdgate.Etcd, plain *clientv3.Client, bi int, beh []cli.Step) ([]tr
 			"priority": get(root + "/member/1/leader_priority"),
 			"idwindow": get(root + "/alloc_id"),
 			"dcinfo":   get(cs["a"].mem.GetDCLocationPath(1)),
+			"keys":     "", // filled in for a key-manager write only (the key is shared by all behaviours on this etcd)
 		}
 	}
 	var out []trace.Ev
@@ -217,6 +230,7 @@ func one(e *etcdgate.Etcd, plain *clientv3.Client, bi int, beh []cli.Step) ([]tr
 	observe(ev0)
 	out = append(out, ev0)
 	seq := 0
+	keysWrite, keysAfter := false, ""
 	for si, st := range beh {
 		if si == 0 {
 			continue
@@ -300,6 +314,21 @@ func one(e *etcdgate.Etcd, plain *clientv3.Client, bi int, beh []cli.Step) ([]tr
 				err = c.mem.DeleteMemberDCLocationInfo(1)
 			case "idwindow":
 				err = c.ida.Rebase()
+			case "keys":
+				// the encryption key manager rotates/saves the data keys through a leader-guarded transaction on a key
+				// that is not under the cluster root: one such write at a time across the parallel behaviours
+				keysMu.Lock()
+				before := get(encryptionkm.EncryptionKeysPath)
+				err = c.km.SetLeadership(c.mem.GetLeadership())
+				keysAfter = get(encryptionkm.EncryptionKeysPath)
+				keysMu.Unlock()
+				sb := stored()
+				sb["keys"] = before
+				ev["stored_before"] = sb
+				if err == nil && keysAfter == before {
+					err = fmt.Errorf("nothing written: the manager found itself not to be the leader")
+				}
+				keysWrite = true
 			case "window":
 				cur, _, _ := tso.VerifTSO(c.alloc)
 				if cur.IsZero() {
@@ -312,6 +341,10 @@ func one(e *etcdgate.Etcd, plain *clientv3.Client, bi int, beh []cli.Step) ([]tr
 			}
 		}
 		observe(ev)
+		if keysWrite {
+			ev["stored"].(map[string]string)["keys"] = keysAfter
+			keysWrite = false
+		}
 		out = append(out, ev)
 	}
 	for _, c := range cs {
